@@ -25,8 +25,10 @@ def contracts(tier):
 
 
 def extra_obligations(tier):
-    return solvers_tables.table_obligations() + solvers_steps.step_obligations(tier) + solvers_steps.wiring_obligations(tier)
-
+    from pyvc import solve
+    _pu = solve.custom_result('paramuse:C12', 'pyiga/solvers.py', 'all functions', __import__('pyvc.paramuse', fromlist=['x']).obligations(['pyiga/solvers.py'], 'paramuse'))
+    _r = solvers_tables.table_obligations() + solvers_steps.step_obligations(tier) + solvers_steps.wiring_obligations(tier)
+    return list(_r) + [_pu]
 
 MANIFEST = {
     'category': 'proof',
